@@ -83,11 +83,15 @@ type Selection struct {
 	Undetermined bool
 	Level1       int // index of the first-level body (== Index unless a second level was used)
 	Keys         KeySet
+	// Unresolvable: a key attribute of the static body is written with an expression that is
+	// neither a reference nor a static value (a call, an interpolation, ...): the dependent body
+	// cannot be resolved for this block
+	Unresolvable bool
 }
 
 // blockKeys computes the key pairs contributed by the block's labels and by the
 // key attributes declared in `keyBody` (written literal / reference, else default).
-func blockKeys(bl m.BlockM, keyBody *m.BodyM, block *hclsyntax.Block) (KeySet, bool, bool) {
+func blockKeys(bl m.BlockM, keyBody *m.BodyM, block *hclsyntax.Block, unresolvable *bool) (KeySet, bool, bool) {
 	var ps []KeyPair
 	undetermined := false
 	for i, l := range bl.Labels {
@@ -127,6 +131,9 @@ func blockKeys(bl m.BlockM, keyBody *m.BodyM, block *hclsyntax.Block) (KeySet, b
 			v, diags := attr.Expr.Value(nil)
 			if diags.HasErrors() || v.IsNull() || !v.IsWhollyKnown() {
 				undetermined = true
+				if unresolvable != nil && diags.HasErrors() && !v.IsNull() && !v.IsWhollyKnown() {
+					*unresolvable = true
+				}
 				continue
 			}
 			ps = append(ps, KeyPair{"attr", n, staticJSON(v)})
@@ -178,8 +185,9 @@ func findDep(bl m.BlockM, ks KeySet) int {
 
 // Select decides which dependent body is in force inside `block`.
 func Select(bl m.BlockM, block *hclsyntax.Block) Selection {
-	ks, undet, missingLabel := blockKeys(bl, bl.Body, block)
-	sel := Selection{Index: -1, Level1: -1, Keys: ks, Undetermined: undet}
+	unres := false
+	ks, undet, missingLabel := blockKeys(bl, bl.Body, block, &unres)
+	sel := Selection{Index: -1, Level1: -1, Keys: ks, Undetermined: undet, Unresolvable: unres && !missingLabel}
 	if missingLabel {
 		// a key label is not written: nothing can be selected, and the
 		// statement does not say whether validation knows the schema
@@ -217,7 +225,7 @@ func Select(bl m.BlockM, block *hclsyntax.Block) Selection {
 			}
 		}
 	}
-	ks2, undet2, _ := blockKeys(bl, &d1, block)
+	ks2, undet2, _ := blockKeys(bl, &d1, block, nil)
 	if undet2 {
 		sel.Undetermined = true
 	}
